@@ -456,3 +456,30 @@ func onetNewConnectionError(status, msg string, cause error) error {
 func contextWithCancel() (context.Context, context.CancelFunc) {
 	return context.WithCancel(context.Background())
 }
+
+// the handshake deadline is armed before the first read and is never changed afterwards (arming
+// the same instant again changes nothing)
+func verifOneHandshakeDeadline(c *verifStreamConn) bool {
+	if len(c.deadlines) == 0 {
+		return false
+	}
+	ok := verifAll(!c.deadlines[0].IsZero(), verifIndexEv(c.events, "SetReadDeadline") < verifIndexEv(c.events, "Read"))
+	for _, d := range c.deadlines[1:] {
+		ok = verifAll(ok, d.Equal(c.deadlines[0]))
+	}
+	return ok
+}
+
+// the handshake deadline was armed, never changed, and finally cleared: nothing limits the
+// connection any more
+func verifHandshakeDeadlineCleared(c *verifStreamConn) bool {
+	n := len(c.deadlines)
+	if n < 2 {
+		return false
+	}
+	ok := verifAll(!c.deadlines[0].IsZero(), c.deadlines[n-1].IsZero())
+	for _, d := range c.deadlines[1 : n-1] {
+		ok = verifAll(ok, d.Equal(c.deadlines[0]))
+	}
+	return ok
+}
